@@ -193,7 +193,12 @@ def run_seeded(prop, verbose=False):
         if not exp:
             out.append({"patch": "seeded/" + os.path.basename(d), "status": "outside-static-reach", "kind": "seeded", "expected": []})
             continue
-        r = run_patch(prop, os.path.join(d, "patch.diff"), verbose, expect=exp, label="seeded/" + os.path.basename(d))
+        # patch.diff is the author's patch against the commit it was written for; when a later fix: commit
+        # touches the same lines, patch.rebased.diff carries the same change on top of the current tree
+        pf = os.path.join(d, "patch.rebased.diff")
+        if not os.path.exists(pf):
+            pf = os.path.join(d, "patch.diff")
+        r = run_patch(prop, pf, verbose, expect=exp, label="seeded/" + os.path.basename(d))
         r["kind"] = "seeded"
         out.append(r)
     return out
@@ -225,11 +230,14 @@ if __name__ == "__main__":
     elif a[0] == "runall":
         allres = {}
         bad = 0
-        for prop in sorted(os.listdir(os.path.join(VERIF, "mutants"))):
-            res = run(prop, [])
+        props = sorted(set(os.listdir(os.path.join(VERIF, "mutants"))) | {m.get("property") for d_, m in
+                       [(d0, json.load(open(os.path.join(VERIF, "seeded", d0, "meta.json")))) for d0 in os.listdir(os.path.join(VERIF, "seeded"))
+                        if os.path.exists(os.path.join(VERIF, "seeded", d0, "meta.json"))]})
+        for prop in props:
+            res = (run(prop, []) if os.path.isdir(os.path.join(VERIF, "mutants", prop)) else []) + run_seeded(prop) + run_benign(prop)
             allres[prop] = res
             for r in res:
-                print(prop, r["patch"], r["status"])
-                if r["status"] != "caught":
+                print(prop, r["patch"], r["status"], flush=True)
+                if r["status"] not in ("caught", "silent", "outside-static-reach"):
                     bad += 1
         sys.exit(1 if bad else 0)
